@@ -505,7 +505,7 @@ class Coordinator:
                     time.sleep(0.2)
         elif kind in ("pop", "pnew"):
             p = st[1]
-            slow = {"spawn": 0.25, "probe": 0.15} if st[4] else None
+            slow = {"spawn": 0.25, "probe": 0.15, "stagger": 0.35} if st[4] else None
             if kind == "pop":
                 cmd = {"cmd": "pop", "op": st[2], "paths": [self.path_of(f) for f in st[3]], "slow": slow}
             else:
